@@ -80,6 +80,14 @@ class FakeNode:
         return hash(('FakeNode', self.k))
 
 
+def forall(pred):
+    raise NotImplementedError('forall() is prover-only (loop invariants and lemmas)')
+
+
+def set_of(seq):
+    return set(seq)
+
+
 def ev(node, context):
     """value of child node on context (native: call it)."""
     return node(context)
